@@ -26,6 +26,12 @@ type LoopSpec struct {
 	Ord        int
 	Invariants []Clause
 	Decreases  *Clause
+	// Iters: per-iteration postconditions, obliged at every back edge;
+	// old(e) is the value of e at the head of the iteration.
+	Iters []Clause
+	// NoBreak: the loop is left only through its header (no break, return or
+	// goto out of the body): every element of the range is visited.
+	NoBreak bool
 }
 
 // SweepEntry: a function swept for panic freedom without a written contract.
@@ -71,6 +77,7 @@ type Contract struct {
 	OnCalls  []OnCall
 	Trusted  bool
 	Replay   string
+	OnlyProps []string // the contract stands in for the function only when one of these properties is checked
 	Closed   bool // every call site in the module must be in verified code (preconditions are not input assumptions)
 	Sweep    bool // synthesised by a sweep directive: callers keep inlining the function
 }
@@ -95,6 +102,7 @@ type OnCall struct {
 		Name string
 		Expr Clause
 	}
+	Checks []Clause // obligations at the call (arguments arg0.., locals, ghosts in scope)
 }
 
 // FrameSpec is a property-level frame contract checked by the frame engine.
@@ -145,6 +153,7 @@ type ContractSet struct {
 	Frames []*FrameSpec
 	PkgStates []*PkgStateSpec
 	Sweeps []SweepEntry
+	Scoped map[string]*Contract // `only PROPS` contracts, consulted before Funcs when the property matches
 	FieldInvs []*FieldInv
 	FieldGroups map[string][]string
 }
@@ -509,6 +518,8 @@ func (cs *ContractSet) LoadFile(file string) error {
 				cur.Pure = true
 				cur.AssignsSet = true
 				cur.Assigns = []string{"nothing"}
+			case "only":
+				cur.OnlyProps = append(cur.OnlyProps, strings.Fields(rest)...)
 			case "closed":
 				cur.Closed = true
 			case "inline":
@@ -559,6 +570,10 @@ func (cs *ContractSet) LoadFile(file string) error {
 					cur.Loops[ord] = ls
 				}
 				kind, body := splitWord(rest2)
+				if kind == "nobreak" {
+					ls.NoBreak = true
+					break
+				}
 				c, err := parseClause(body, where)
 				if err != nil {
 					return err
@@ -568,6 +583,8 @@ func (cs *ContractSet) LoadFile(file string) error {
 					ls.Invariants = append(ls.Invariants, c)
 				case "decreases":
 					ls.Decreases = &c
+				case "iter":
+					ls.Iters = append(ls.Iters, c)
 				default:
 					return fmt.Errorf("%s: loop clause %q", where, kind)
 				}
@@ -601,11 +618,20 @@ func (cs *ContractSet) LoadFile(file string) error {
 				// oncall Callee[#n] [when EXPR] do a = e; b = e
 				oc := OnCall{}
 				k := strings.Index(rest, " do ")
+				isCheck := false
 				if k < 0 {
-					return fmt.Errorf("%s: oncall needs 'do'", where)
+					if k = strings.Index(rest, " check "); k >= 0 {
+						isCheck = true
+					}
+				}
+				if k < 0 {
+					return fmt.Errorf("%s: oncall needs 'do' or 'check'", where)
 				}
 				head := strings.TrimSpace(rest[:k])
 				body := rest[k+4:]
+				if isCheck {
+					body = rest[k+7:]
+				}
 				if w := strings.Index(head, " when "); w >= 0 {
 					c, err := parseClause(head[w+6:], where)
 					if err != nil {
@@ -619,6 +645,15 @@ func (cs *ContractSet) LoadFile(file string) error {
 					head = head[:h]
 				}
 				oc.Callee = head
+				if isCheck {
+					c, err := parseClause(body, where)
+					if err != nil {
+						return err
+					}
+					oc.Checks = append(oc.Checks, c)
+					cur.OnCalls = append(cur.OnCalls, oc)
+					break
+				}
 				for _, as := range strings.Split(body, ";") {
 					e := strings.Index(as, "=")
 					if e < 0 {
@@ -756,6 +791,16 @@ func splitTopLevel(s string, sep rune) []string {
 // already has a written contract keeps it and gains the property and the
 // safety obligations.
 func (cs *ContractSet) applySweeps() {
+	// property-scoped contracts live beside the ordinary ones
+	if cs.Scoped == nil {
+		cs.Scoped = map[string]*Contract{}
+	}
+	for k, c := range cs.Funcs {
+		if len(c.OnlyProps) > 0 {
+			cs.Scoped[k] = c
+			delete(cs.Funcs, k)
+		}
+	}
 	for _, sw := range cs.Sweeps {
 		if c, ok := cs.Funcs[sw.Key]; ok {
 			if c.Trusted || c.Extern {
